@@ -311,7 +311,7 @@ def cmd_check(prop, tier, only=None, verbose=True, match=None):
     n_shards = sum(d["shards"] for d in per_h.values())
     n_conf = sum(d["confirmed"] for d in per_h.values())
     ev_h = []
-    stubs = set()
+    stubs = {"E13"}  # installed by the prelude for every harness
     for h in harnesses:
         d = per_h.get(h.hid, {})
         stubs.update(h.stubs)
